@@ -26,9 +26,10 @@ def run(prop, repo_root, seed, evidence_dir=None):
     base = tempfile.mkdtemp(prefix='verif-thorough-', dir=os.environ.get('TMPDIR') or None)
     results = {'breaking': [], 'neutral': [], 'skipped': []}
     try:
+        from concurrent.futures import ThreadPoolExecutor
+        jobs = []
         # ---- breaking variants: seeded changes recorded as detected by this property
         seeds_dir = os.path.join(VERIF, 'seeded')
-        todo = []
         if os.path.isdir(seeds_dir):
             for name in sorted(os.listdir(seeds_dir)):
                 sd = os.path.join(seeds_dir, name)
@@ -37,21 +38,33 @@ def run(prop, repo_root, seed, evidence_dir=None):
                     continue
                 meta = json.load(open(meta_p))
                 if prop in meta.get('detected_by', []):
-                    todo.append((name, sd))
-        for name, sd in todo:
-            dst = os.path.join(base, 'b-' + name)
+                    dst = os.path.join(base, 'b-' + name)
+                    _copy_repo(repo_root, dst)
+                    r = subprocess.run(['patch', '-p1', '-s', '--no-backup-if-mismatch', '-i', os.path.join(sd, 'patch.diff')], cwd=dst,
+                                       capture_output=True, text=True)
+                    if r.returncode != 0:
+                        results['skipped'].append({'variant': name, 'why': 'patch no longer applies to the current tree'})
+                        shutil.rmtree(dst, ignore_errors=True)
+                        continue
+                    jobs.append(('breaking', name, dst, None))
+        # ---- programmatic breaking variants (ast mutations located by role; survive reformatting of the tree)
+        from sa import mutants
+        for mname, mprops, transform in mutants.MUTANTS:
+            if prop not in mprops:
+                continue
+            dst = os.path.join(base, 'm-' + mname)
             _copy_repo(repo_root, dst)
-            r = subprocess.run(['patch', '-p1', '-s', '--no-backup-if-mismatch', '-i', os.path.join(sd, 'patch.diff')], cwd=dst, capture_output=True, text=True)
-            if r.returncode != 0:
-                results['skipped'].append({'variant': name, 'why': 'patch no longer applies to the current tree'})
+            try:
+                changed = transform(dst)
+            except Exception as ex:
+                changed = 0
+                results['skipped'].append({'variant': mname, 'why': 'mutation failed: %s' % ex})
+            if not changed:
+                if not any(s_['variant'] == mname for s_ in results['skipped']):
+                    results['skipped'].append({'variant': mname, 'why': 'mutation site not found on this tree'})
                 shutil.rmtree(dst, ignore_errors=True)
                 continue
-            try:
-                rc = run_property(prop, dst, 'quick', seed, evidence_dir=os.path.join(base, 'ev'), quiet=True)
-            except AnalysisError as ex:
-                rc = 2
-            results['breaking'].append({'variant': name, 'rc': rc})
-            shutil.rmtree(dst, ignore_errors=True)
+            jobs.append(('breaking', 'ast:' + mname, dst, None))
         # ---- neutral variants
         for vname, transform in neutral.VARIANTS:
             dst = os.path.join(base, 'n-' + vname)
@@ -66,13 +79,22 @@ def run(prop, repo_root, seed, evidence_dir=None):
                 results['skipped'].append({'variant': vname, 'why': 'transform found nothing to change'})
                 shutil.rmtree(dst, ignore_errors=True)
                 continue
-            try:
-                rc = run_property(prop, dst, 'quick', seed, evidence_dir=os.path.join(base, 'ev'), quiet=True)
-            except AnalysisError as ex:
-                rc = 2
-                results.setdefault('errors', []).append({'variant': vname, 'error': str(ex)})
-            results['neutral'].append({'variant': vname, 'rc': rc, 'files_changed': changed})
-            shutil.rmtree(dst, ignore_errors=True)
+            jobs.append(('neutral', vname, dst, changed))
+
+        def job(j):
+            kind, name, dst, changed = j
+            r = subprocess.run([sys.executable, os.path.join(VERIF, 'sa', 'check.py'), prop, '--repo', dst, '--tier', 'quick',
+                                '--evidence-dir', os.path.join(base, 'ev-' + name.replace(':', '_'))], capture_output=True, text=True, cwd=VERIF)
+            first = [l for l in r.stdout.splitlines() if l.startswith(('playback/', 'ANALYSIS-ERROR', 'site-packages'))][:1]
+            return kind, name, r.returncode, changed, first
+        with ThreadPoolExecutor(int(os.environ.get('VERIF_JOBS', '12'))) as ex:
+            for kind, name, rc, changed, first in ex.map(job, jobs):
+                rec = {'variant': name, 'rc': rc}
+                if changed is not None:
+                    rec['files_changed'] = changed
+                if first:
+                    rec['report'] = first[0].replace(base, '')[:240]
+                results[kind].append(rec)
     finally:
         shutil.rmtree(base, ignore_errors=True)
     missed = [b for b in results['breaking'] if b['rc'] != 1]
